@@ -314,6 +314,51 @@ def nested_overlap_cli(ctx, res):
             break
 
 
+def real_overlap_cli(ctx, res):
+    """C04 through the binary with the REAL task runner: two independent stages each leave a mark and wait (up to 4 s) for the other's mark: they
+    can only both succeed if they run at the same time.  Varied: a shared named context with / without hooks, interactive tasks, one task
+    shared by both stages, variations, conditions, timeouts, the prefixed output format."""
+    import clilib
+    wait = ('touch "$PROJ/m.%s"; i=0; while [ ! -e "$PROJ/m.%s" ] && [ $i -lt 80 ]; do sleep 0.05; i=$((i+1)); done; [ -e "$PROJ/m.%s" ]')
+    shapes = {
+        "plain": ({}, {}, []),
+        "shared-context-hooks": ({"context": "cx"}, {"cx": {"before": ["true"], "after": ["true"], "env": {"C": "1"}}}, []),
+        "shared-context-updown": ({"context": "cx"}, {"cx": {"up": ["true"], "down": ["true"]}}, []),
+        "interactive": ({"interactive": True}, {}, []),
+        "prefixed": ({}, {}, ["--output", "prefixed"]),
+        "condition-and-hooks": ({"condition": "true", "before": ["true"], "after": ["true"]}, {}, []),
+        "timeout-and-variations": ({"timeout": "20s", "variations": [{"V": "1"}]}, {}, []),
+        "allow-failure-env": ({"allow_failure": True, "env": {"E": "1"}, "variables": {"v": "1"}}, {}, []),
+    }
+    jobs = []
+    for name, (extra, ctxs, flags) in shapes.items():
+        ta = dict({"command": [wait % ("a", "b", "b")]}, **extra)
+        tb = dict({"command": [wait % ("b", "a", "a")]}, **extra)
+        doc = {"tasks": {"ta": ta, "tb": tb, "tc": {"command": ['touch "$PROJ/m.c"']}},
+               "pipelines": {"p": [{"task": "ta", "name": "a"}, {"task": "tb", "name": "b"}, {"task": "tc", "name": "c", "depends_on": ["a", "b"]}]}}
+        if ctxs:
+            doc["contexts"] = ctxs
+        jobs.append({"id": len(jobs), "files": {"cfg.json": clilib.jcfg(doc)}, "argv": ["-c", "cfg.json"] + (flags or ["--raw"]) + ["run", "pipeline", "p"], "keep": ["m.a", "m.b", "m.c"], "timeout": 40, "shape": name})
+    # one task shared by the two stages (told apart by a stage-level variable)
+    shared = {"command": ['me={{.Me}}; other={{.Other}}; touch "$PROJ/m.$me"; i=0; while [ ! -e "$PROJ/m.$other" ] && [ $i -lt 80 ]; do sleep 0.05; i=$((i+1)); done; [ -e "$PROJ/m.$other" ]']}
+    doc = {"tasks": {"t": shared, "tc": {"command": ['touch "$PROJ/m.c"']}},
+           "pipelines": {"p": [{"task": "t", "name": "a", "variables": {"Me": "a", "Other": "b"}}, {"task": "t", "name": "b", "variables": {"Me": "b", "Other": "a"}},
+                               {"task": "tc", "name": "c", "depends_on": ["a", "b"]}]}}
+    jobs.append({"id": len(jobs), "files": {"cfg.json": clilib.jcfg(doc)}, "argv": ["-c", "cfg.json", "--raw", "run", "pipeline", "p"], "keep": ["m.a", "m.b", "m.c"], "timeout": 40, "shape": "shared-task"})
+    out = clilib.run_cli(ctx.workdir + "/realov", jobs, timeout=40, workers=4)
+    for j in jobs:
+        r = out[j["id"]]
+        res.evaluations += 1
+        res.count("real-overlap-cli")
+        res.nontrivial_keys.add("real-overlap-" + j["shape"])
+        case = {"kind": "real-overlap-cli", "shape": j["shape"], "argv": j["argv"], "config": json.loads(j["files"]["cfg.json"])}
+        if r["timeout"] or clilib.crashed(r):
+            res.violations.append({"class": None, "what": "two independent stages (%s): the run hung or crashed" % j["shape"], "case": case, "observed": (r.get("err") or "")[-500:]})
+        elif r["rc"] != 0 or "m.c" not in r["files"]:
+            res.violations.append({"class": None, "what": "two independent stages (%s) were not run at the same time: each waits for the other's mark and one of them gave up" % j["shape"],
+                                   "case": case, "observed": {"rc": r["rc"], "marks": sorted(r["files"]), "wall_ms": r.get("wall_ms"), "err": (r.get("err") or "")[-400:]}})
+
+
 def nested_conderr_cli(ctx, res):
     """C03 through the binary: a stage condition that cannot be evaluated (the scheduler cancels the run) inside a NESTED pipeline, in the
     enclosing pipeline while a nested one is running, with tasks in flight: the run returns in bounded time."""
@@ -353,7 +398,7 @@ def nested_conderr_cli(ctx, res):
 
 def run(ctx, prop):
     res = vlib.Result()
-    extra_kinds = {"nested-cli": nested_cli, "nested-conderr-cli": nested_conderr_cli, "nested-overlap-cli": nested_overlap_cli}
+    extra_kinds = {"nested-cli": nested_cli, "nested-conderr-cli": nested_conderr_cli, "nested-overlap-cli": nested_overlap_cli, "real-overlap-cli": real_overlap_cli}
     if ctx.replay_cases and any(c.get("kind") in extra_kinds for c in ctx.replay_cases):
         # a replay of a case of one of the through-the-binary sections runs that section again
         for kind in sorted({c.get("kind") for c in ctx.replay_cases if c.get("kind") in extra_kinds}):
@@ -476,4 +521,5 @@ def run(ctx, prop):
         nested_conderr_cli(ctx, res)
     if prop == "C04" and not ctx.replay_cases:
         nested_overlap_cli(ctx, res)
+        real_overlap_cli(ctx, res)
     return res
